@@ -42,11 +42,23 @@ Print Assumptions C03_node_text_total.
 (* the reported node is the At() capture when given, else the whole match; a suggestion replaces exactly its range *)
 Theorem C03_at_relocates_and_suggestion_range :
   forall r l whole caps rep, mk_report r l whole caps = Some rep ->
-  exists node, (match r_loc r with None => node = whole | Some v => captured_by_name v caps = Some node end) /\
+  exists node, (match r_loc r with None => node = whole | Some v => loc_node v whole caps = Some node end) /\
                rep_pos rep = n_pos node /\ rep_end rep = n_end node /\
                (forall f t s, rep_sugg rep = Some (f, t, s) -> f = n_pos node /\ t = n_end node).
 Proof. exact at_relocates. Qed.
 Print Assumptions C03_at_relocates_and_suggestion_range.
+
+(* what At() names: "$$" is the match itself; a bound capture is the FIRST capture of that name -- unless it matched nothing
+   (an empty `$*xs` list has no position; a negative offset stands for token.NoPos), then the match itself is reported *)
+Theorem C03_at_of_the_whole_match : forall whole caps, loc_node dollar_dollar whole caps = Some whole.
+Proof. exact loc_node_whole. Qed.
+Print Assumptions C03_at_of_the_whole_match.
+
+Theorem C03_at_of_a_capture :
+  forall v whole caps nd, v <> dollar_dollar -> captured_by_name v caps = Some nd ->
+  loc_node v whole caps = Some (if absent nd then whole else nd).
+Proof. exact loc_node_capture. Qed.
+Print Assumptions C03_at_of_a_capture.
 
 Theorem C03_suggest_untruncated :
   forall r l whole caps rep f t s, mk_report r l whole caps = Some rep -> rep_sugg rep = Some (f, t, s) ->
